@@ -494,3 +494,15 @@ def _history(P, ks, a):
         raise
     except Exception as e:          # noqa
         fail('walking the tree raised %s after an insert/delete history' % type(e).__name__, ctx)
+
+
+def catalogue_crash(P, ks, a):
+    """replay of 'the catalogue search kills the interpreter': the same breadth-first run of concrete insert/delete
+    histories (public API only, keys 0..N-1, node sizes L/I) in a fresh interpreter.  Returning normally = not reproduced;
+    the process dying is the reproduction (the runner sees the exit status)."""
+    import os
+    os.environ.pop('VERIF_HISTLOG', None)
+    os.environ.pop('VERIF_SKIP_HIST', None)
+    cl = shapes.classes(P.get('family', 'OO'), 'c')
+    shapes.set_sizes(cl, P['L'], P['I'])
+    shapes.catalogue(cl, P['kind'], P['N'], sizes=(P['L'], P['I']))
